@@ -31,11 +31,11 @@ RULE = (
     "no bound on the number of deviations (explicit-state: states = (offered buffers, bytes on the wire, clock, fault budget)); "
     "timeouts {inf, 3.0, 0} x retry_interval {inf, 1.0} x environment {writable after 0.4 / 1.7 / never}; paths: send_all, "
     "send_all_from_iterable via sendmsg, via SC_IOV_MAX<=0 fallback, via no-sendmsg fallback, StreamEndpoint.send_packet, and the "
-    "asyncio adapter (send_all / send_all_from_iterable, pipe capacities 1/3/64, peer draining at any loop iteration); "
+    "asyncio adapter (send_all / send_all_from_iterable, <= 3 chunks quick, pipe capacities 1/3/64, peer draining or resetting at any loop iteration, then a second send on the same transport); "
     "distinct_nontrivial = distinct (config, final observation) pairs of executions with at least one non-default answer"
 )
 ASSUMPTIONS = [
-    "the sending loops keep no state other than their remaining buffers and remaining timeout (the state key); validated by an unmerged run at deviation bound 1",
+    "the state key = offered buffers, bytes on the wire, virtual clock, fault budget AND every float local (remaining timeouts, deadlines, intervals) of every library frame on the call stack; validated by an unmerged run at deviation bound 1",
     "a send() of zero bytes returns 0 (POSIX); an infinite timeout with a peer that never reads again is not enumerated (blocking forever is then legitimate)",
     "TLS send paths are checked under C08 (transparent stream) with the TLS rig",
 ]
@@ -65,6 +65,30 @@ def make_chunks(sizes: tuple[int, ...]) -> list[bytes]:
 # blocking paths
 
 
+def _library_frame_locals() -> tuple:
+    """Float locals (remaining timeouts, deadlines, intervals) of every library frame on the current call stack.
+
+    They are part of the state key: two executions that offer the same buffers at the same instant but carry a different
+    remaining timeout (or counter) in a suspended library frame have different futures and must not be merged."""
+    import sys
+
+    out = []
+    f = sys._getframe(1)
+    while f is not None:
+        fn = f.f_code.co_filename
+        if "easynetwork" in fn and "/verif/" not in fn:
+            loc = []
+            for k, v in f.f_locals.items():
+                # durations / deadlines (floats): byte counters and the buffers themselves are already determined by
+                # the offered buffers and the wire, and dead integer locals (the size of the previous partial write)
+                # would only multiply the states
+                if isinstance(v, float):
+                    loc.append((k, round(v, 6) if v == v and abs(v) != math.inf else v))
+            out.append((f.f_code.co_name, tuple(sorted(loc, key=repr))))
+        f = f.f_back
+    return tuple(out)
+
+
 def run_sync(ctx: Ctx, cfg: dict) -> dict:
     sizes = tuple(cfg["sizes"])
     chunks = make_chunks(sizes)
@@ -83,7 +107,7 @@ def run_sync(ctx: Ctx, cfg: dict) -> dict:
             raise HorizonHit("send() called more than %d times" % CALL_HORIZON)
         off = s.last_offered
         # with an infinite budget the remaining timeout never changes: the clock is not part of the state
-        key = ("send", off, bytes(s.tx.total), round(world.clock, 6) if T != math.inf else None, state["reset_used"])
+        key = ("send", off, bytes(s.tx.total), round(world.clock, 6) if T != math.inf else None, state["reset_used"], _library_frame_locals())
         # a state repeated within ONE execution with no environment choice in between is a cycle of the library
         # alone (deterministic code, same inputs): livelock.  (Cycles through EAGAIN/EINTR answers are the
         # environment's doing and are simply pruned.)
@@ -109,7 +133,8 @@ def run_sync(ctx: Ctx, cfg: dict) -> dict:
 
     def env(w: World, sel: Any, timeout: float | None) -> None:
         if sock.tx_blocked and not state["pending_unblock"]:
-            alts = [0.4, 1.7] + (["never"] if T != math.inf else [])
+            # two delays only for short chunk sequences (the clock values they generate multiply the states)
+            alts = ([0.4, 1.7] if len(sizes) <= cfg.get("two_delays_upto", 2) else [1.7]) + (["never"] if T != math.inf else [])
             a = alts[ctx.choose(len(alts), "unblock", costed=cfg.get("costed", False))]
             state["pending_unblock"] = True
             if a != "never":
@@ -201,7 +226,7 @@ def chunk_seqs(tier: str) -> list[tuple[int, ...]]:
 def jobs(tier: str) -> list[dict]:
     out: list[dict] = []
     seqs = chunk_seqs(tier)
-    nparts = 8 if tier == "quick" else 48
+    nparts = 16 if tier == "quick" else 64
     for path in SYNC_PATHS:
         for timeout in (None, 3.0, 0):
             for retry in (None, 1.0):
@@ -217,7 +242,8 @@ def jobs(tier: str) -> list[dict]:
 
 
 def _sync_cfg(job: dict, sizes: tuple[int, ...], costed: bool = False) -> dict:
-    return {"path": job["path"], "timeout": job["timeout"], "retry": job["retry"], "sizes": list(sizes), "costed": costed}
+    return {"path": job["path"], "timeout": job["timeout"], "retry": job["retry"], "sizes": list(sizes), "costed": costed,
+            "two_delays_upto": 2 if job["tier"] == "quick" else 3}
 
 
 def run_sync_job(job: dict, res: JobResult) -> None:
@@ -284,6 +310,7 @@ def run_async(ctx: Ctx, cfg: dict) -> dict:
 
     from .. import vloop
 
+    world_peer_reads_all_at_end = True
     sizes = tuple(cfg["sizes"])
     chunks = make_chunks(sizes)
     expected = b"".join(chunks)
@@ -296,6 +323,11 @@ def run_async(ctx: Ctx, cfg: dict) -> dict:
         # the peer may read k bytes before this poll (default: everything, when the loop would otherwise idle)
         q = sock.tx.q
         if not q:
+            # nothing to drain: the peer may still reset the connection (before / between sends)
+            if not st["reset"] and cfg.get("allow_reset") and ctx.choose(2, "peer-reset-idle", costed=True):
+                st["reset"] = True
+                sock.tx.error = ConnectionResetError(errno.ECONNRESET, "reset")
+                sock.rx.error = ConnectionResetError(errno.ECONNRESET, "reset")
             return
         if timeout == 0:
             alts: list[Any] = ["wait", "all", 1]
@@ -333,6 +365,20 @@ def run_async(ctx: Ctx, cfg: dict) -> dict:
             out["result"] = ("oserror", type(exc).__name__)
             out["wire_at_return"] = bytes(sock.tx.total)
             out["buffered_at_return"] = 0
+        # a second send on the same transport (possibly after the connection was lost)
+        for _ in range(2):
+            await asyncio.sleep(0)
+        before = len(sock.tx.total)
+        try:
+            if cfg["path"] == "send_all":
+                await tr.send_all(b"ZZ")
+            else:
+                await tr.send_all_from_iterable(iter([b"Z", b"", b"Z"]))
+            out["second"] = ("ok", bytes(sock.tx.total[before:]))
+        except OSError as exc:
+            out["second"] = ("oserror", type(exc).__name__)
+        except Exception as exc:  # noqa: BLE001
+            out["second"] = ("unexpected", type(exc).__name__ + ": " + str(exc)[:80])
 
     status, value, loop = vloop.run(world, main)
     if status != "ok":
@@ -345,6 +391,14 @@ def run_async(ctx: Ctx, cfg: dict) -> dict:
 
 
 def oracle_async(obs: dict) -> str | None:
+    sec = obs.get("second")
+    if sec is not None:
+        if sec[0] == "unexpected":
+            return "second-send-raised-" + sec[1].split(":")[0]
+        if sec[0] == "ok" and sec[1] != b"ZZ" and not obs["reset"]:
+            return "second-send-wrong-bytes"
+        if sec[0] == "oserror" and not obs["reset"]:
+            return "second-send-spurious-oserror"
     r = obs["result"]
     if r[0] == "ok":
         if obs["wire_at_return"] != obs["expected"]:
@@ -368,6 +422,8 @@ def run_async_job(job: dict, res: JobResult) -> None:
         if i % job["parts"] != job["part"]:
             continue
         if job["path"] == "send_all" and (0 in sizes or not sizes):
+            continue
+        if job["tier"] == "quick" and len(sizes) > 3:
             continue
         cfg = {"path": job["path"], "cap": job["cap"], "sizes": list(sizes), "allow_reset": True}
         found: dict[str, tuple[Ctx, dict]] = {}
